@@ -127,6 +127,22 @@ def register(reg):
                      hints=["use gaps(tab_idx)"])}))
 
 
+    # ---------------------------------------------------------------- removal by an index list in any order (list.sort: trusted model)
+    # the argument is sorted IN PLACE (visible to the caller), scanned for duplicates, then handed to __removeObsListById
+    reg.add(Spec(T + "removeObsList", dict(self="Track", tab="list[int]"), "int", modifies=["Track." + PTS],
+                 requires=["len(tab) >= 1", "all(0 <= tab[q] and tab[q] < npts(self) for q in range(0, len(tab)))",
+                           "all(implies(a < b, tab[a] != tab[b]) for a in range(0, len(tab)) for b in range(0, len(tab)))"],
+                 hints=[("sorted-strictly", "all(tab[q] < tab[q + 1] for q in range(0, len(tab) - 1))")],
+                 at={"tab.sort()": [("sorted-list-has-no-duplicate", "all(tab[q] < tab[q + 1] for q in range(0, len(tab) - 1))"),
+                                    ("sorted-list-in-range", "all(0 <= tab[q] and tab[q] < npts(self) for q in range(0, len(tab)))")]},
+                 loops={"1": LoopSpec(inv=["True"])},
+                 ensures=[("as-many-removed-as-listed", "result == len(tab) and npts(self) == old(npts(self)) - len(tab) and len(tab) == old(len(tab))"),
+                          ("only-this-track", "unchanged_except('Track.%s', self)" % PTS)],
+                 ensures_local=[("exactly-the-other-observations-in-order (tab = the sorted index list)",
+                                 "all(implies((tab[j - 1] if j > 0 else -1) < p and p < (tab[j] if j < len(tab) else old(npts(self))), "
+                                 "pts(self)[p - j] == old(pts(self)[p])) for j in range(0, len(tab) + 1) for p in range(0, old(npts(self))))")]),
+            variant="ints")
+
     # ---------------------------------------------------------------- sort by time (numpy.argsort: trusted model)
     n = "npts(self)"
     OLD = "old(pts(self))"
@@ -199,7 +215,7 @@ def register(reg):
                           ("only-this-track", "unchanged_except('Track.%s', self)" % PTS)]), variant="chrono")
 
 
-FUNCTIONS = [T + n for n in ("_Track__getInsertionIndex", "insertObs@index", "insertObsInChronoOrder", "insertObs@chrono", "extract", "__gt__", "__lt__", "__mod__", "__add__", "_Track__removeObsListById", "getTimestamps", "sort")]
+FUNCTIONS = [T + n for n in ("_Track__getInsertionIndex", "insertObs@index", "insertObsInChronoOrder", "insertObs@chrono", "extract", "__gt__", "__lt__", "__mod__", "__add__", "_Track__removeObsListById", "removeObsList@ints", "getTimestamps", "sort")]
 ASSUMPTIONS = ["numpy.argsort is a trusted model (Track.sort): it returns a permutation of the indices along which the keys do not decrease; "
                "timestamps are keyed by ObsTime.__lt__, i.e. by abstime (C03)",
                "__getInsertionIndex: the statement `delta = 2 ** (int(math.log(N) / math.log(2)) - 1)` is not executed symbolically; ASSUMED: it yields a "
